@@ -50,7 +50,9 @@ type Contract struct {
 	Pure      bool
 	File      string
 	Line      int
+	Uses      []string    // axioms / proved lemmas assumed (universally quantified) at entry
 	Assumes   []Clause    // function-level assumptions (spec definitions / axioms), listed in evidence
+	Defines   []Clause    // ghost predicates defined as the function's observable behaviour: assumed at call sites, not checked
 	Ghosts    []GhostStmt // ghost assignments at anchors
 }
 
@@ -75,8 +77,9 @@ type Lemma struct {
 	Src   string
 	Axiom bool
 	Pkg   string
-	Vars  []string // free variables declared with `forall`-style prefix: lemma name(x, y): expr
+	Vars  []string // typed variables: "m bytes", "n int"
 	Uses  []string
+	Ind   string // induction variable ("" = none)
 }
 
 type PoolInv struct {
@@ -599,6 +602,20 @@ func loadSpecFiles(root string) (*SpecFile, []string, error) {
 					}
 					cur.Decreases = append(cur.Decreases, e)
 				}
+			case "uses":
+				if cur == nil {
+					return nil, nil, fmt.Errorf("%s: clause outside func", where)
+				}
+				cur.Uses = append(cur.Uses, splitTopComma(rest)...)
+			case "defines":
+				if cur == nil {
+					return nil, nil, fmt.Errorf("%s: clause outside func", where)
+				}
+				c, err := mk(rest)
+				if err != nil {
+					return nil, nil, err
+				}
+				cur.Defines = append(cur.Defines, c)
 			case "assume":
 				if cur == nil {
 					return nil, nil, fmt.Errorf("%s: clause outside func", where)
@@ -747,12 +764,45 @@ func loadSpecFiles(root string) (*SpecFile, []string, error) {
 				if i < 0 {
 					return nil, nil, fmt.Errorf("%s: bad lemma", where)
 				}
+				// the colon that ends the head is the first one outside parentheses
+				depth := 0
+				i = -1
+				for x := 0; x < len(rest); x++ {
+					switch rest[x] {
+					case '(':
+						depth++
+					case ')':
+						depth--
+					case ':':
+						if depth == 0 && i < 0 {
+							i = x
+						}
+					}
+				}
+				if i < 0 {
+					return nil, nil, fmt.Errorf("%s: bad lemma", where)
+				}
 				head := strings.TrimSpace(rest[:i])
 				l := &Lemma{Axiom: word == "axiom", Pkg: pkg}
 				if j := strings.Index(head, "("); j >= 0 {
 					l.Name = strings.TrimSpace(head[:j])
-					for _, p := range splitTopComma(head[j+1 : strings.LastIndex(head, ")")]) {
+					k := strings.Index(head, ")")
+					for _, p := range splitTopComma(head[j+1 : k]) {
 						l.Vars = append(l.Vars, p)
+					}
+					tail := strings.Fields(strings.ReplaceAll(head[k+1:], ",", " "))
+					mode := ""
+					for _, w := range tail {
+						switch w {
+						case "induction", "use":
+							mode = w
+						default:
+							if mode == "induction" {
+								l.Ind = w
+							} else if mode == "use" {
+								l.Uses = append(l.Uses, w)
+							}
+						}
 					}
 				} else {
 					l.Name = head
